@@ -105,6 +105,8 @@ def analyze(case, seed=0, fault_at=None, fault_kind="raise"):
             return a
     a.ob = irview.observe(run.bu, isa)
     a.ctr["applies"] = 1
+    if case.get("driver") == "passes":
+        a.ctr["applies_through_passmanager"] = 1
     a.ctr["patch_invocations"] = len(run.rec.invocations)
     return a
 
